@@ -8,7 +8,10 @@ Daemon._getInstance / createInstance on the thread server.  Every instance takes
 and every call returns the serial of the instance that served it; the construction log keeps only weak
 references, so that "dropped when the connection ends" is observed through the weakref after the server
 has quiesced.  Instance creators are module-level functions driven by a per-run script (ok / raise /
-return None / return an object of a foreign class).
+return None / return an object of a foreign class).  Constructors can take virtual time (per class, from the plan),
+the daemon can run with a COMMTIMEOUT, and every class also has a one-way method whose executions are logged
+server side (token + serial of the executing instance), so that first-call-is-one-way and one-way-then-disconnect
+histories are judged by the same instance mode rules.
 """
 import gc
 import threading
@@ -17,7 +20,7 @@ import weakref
 from ..world import World
 from .. import sched as S
 from .common import Server, SERIALIZERS
-from ..seams import CL, SV, config
+from ..seams import CL, SV, PR, config
 import Pyro5.api as api
 import Pyro5.errors as E
 from Pyro5.callcontext import current_context as cctx
@@ -34,8 +37,10 @@ class _Run:
     def __init__(self, sched=None):
         self.sched = sched
         self.serial = 0
-        self.made = []          # {"serial","key","mode","conn","stamp","ref" (weakref only!),"in_creator"}
-        self.creator_log = []   # {"key","n","conn","stamp","action"}
+        self.made = []          # {"serial","key","mode","conn","seq","stamp","end","ref" (weakref only!),"in_creator"}
+        self.creator_log = []   # {"key","n","conn","seq","stamp","action"}
+        self.execs = []         # one-way executions: {"tok","serial","stamp"}
+        self.work = {}          # class key -> virtual seconds a construction takes
         self.creator_n = {}     # class key -> invocations so far
         self.scripts = {}       # class key -> list of actions for the 1st, 2nd, ... invocation ("ok" beyond the list)
         self.in_creator = {}    # sim thread idx -> depth
@@ -50,6 +55,10 @@ def _conn_of_current_request():
     return getattr(getattr(c, "sock", None), "conn", None)
 
 
+def _seq_of_current_request():
+    return cctx.seq
+
+
 def _constructed(self):
     """__init__ of every workload class"""
     run = _RUN
@@ -60,13 +69,32 @@ def _constructed(self):
     self._serial = run.serial
     cls = type(self)
     tid = s.me().idx
-    run.made.append({"serial": self._serial, "key": cls._key, "mode": cls._mode, "conn": _conn_of_current_request(),
-                     "stamp": s.stamp(), "ref": weakref.ref(self), "in_creator": run.in_creator.get(tid, 0) > 0})
+    m = {"serial": self._serial, "key": cls._key, "mode": cls._mode, "conn": _conn_of_current_request(),
+         "seq": _seq_of_current_request(), "stamp": s.stamp(), "end": None, "ref": weakref.ref(self),
+         "in_creator": run.in_creator.get(tid, 0) > 0}
+    run.made.append(m)
     s.ev("made", cls._key, self._serial)
+    w = run.work.get(cls._key)
+    if w:
+        s.sleep(w)              # a constructor that takes a while (virtual time)
+    m["end"] = s.stamp()
 
 
 def _who(self, tok):
     return [self._serial, tok]
+
+
+def _note(self, tok):
+    """one-way: nothing is returned, the execution is logged"""
+    run = _RUN
+    s = run.sched
+    if s is None:
+        return
+    run.execs.append({"tok": tok, "serial": self._serial, "stamp": s.stamp()})
+    s.ev("note", tok, self._serial)
+
+
+_note = api.oneway(_note)
 
 
 def _creator(clazz):
@@ -80,7 +108,8 @@ def _creator(clazz):
     run.creator_n[key] = n
     script = run.scripts.get(key) or []
     action = script[n - 1] if n - 1 < len(script) else "ok"
-    run.creator_log.append({"key": key, "n": n, "conn": _conn_of_current_request(), "stamp": s.stamp(), "action": action})
+    run.creator_log.append({"key": key, "n": n, "conn": _conn_of_current_request(), "seq": _seq_of_current_request(),
+                            "stamp": s.stamp(), "action": action})
     s.ev("creator", key, n, action)
     if action == "raise":
         raise RuntimeError("creator refuses (invocation %d)" % n)
@@ -98,7 +127,7 @@ def _creator(clazz):
 
 def _make_class(mode, shape, with_creator):
     name = "I_%s_%s_%s" % (mode, shape, "c" if with_creator else "n")
-    ns = {"__module__": __name__, "__qualname__": name, "__init__": _constructed, "who": _who,
+    ns = {"__module__": __name__, "__qualname__": name, "__init__": _constructed, "who": _who, "note": _note,
           "_key": name, "_mode": mode, "_shape": shape, "_with_creator": with_creator}
     if shape == "len0":
         ns["__len__"] = lambda self: 0                       # container-like and empty
@@ -134,6 +163,7 @@ class Impostor:
     _shape = "truthy"
     __init__ = _constructed
     who = _who
+    note = _note
 
 
 class _ProbeLock(S.SimLock):
@@ -179,25 +209,34 @@ class InstWorld(World):
     REAL = ["Pyro5.server.Daemon._getInstance/createInstance, register, handleRequest dispatch", "Pyro5.server.behavior / expose",
             "socketutil.SocketConnection.pyroInstances / close", "SocketServer_Threadpool / SocketServer_Multiplex",
             "Pyro5.client.Proxy (connect, call, release, reconnect)", "Pyro5.protocol", "serializers (all four)"]
-    STUB = ["sockets/selector (in-memory)", "threads (baton scheduler, line pre-emption in Daemon._getInstance + createInstance)",
+    STUB = ["sockets/selector (in-memory)", "threads (baton scheduler, line pre-emption and injected stalls in Daemon._getInstance + createInstance)",
             "time (virtual clock)", "uuid4 (seeded)",
             "Daemon.create_single_instance_lock replaced by a subclass of the simulated lock that counts contention"]
     PROBES = ["concurrent_first_calls_overlapped", "falsy_shape", "eq_shape", "creator_used", "creator_failed",
               "creator_wrong_type", "session_dropped_verified", "percall", "multiplex", "thread", "reconnect",
               "single", "session", "multi_class_connection", "preempted_in_getInstance", "session_dropped_while_others_connected",
-              "session_dropped_after_reset"]
+              "session_dropped_after_reset", "commtimeout", "slow_constructor", "single_creation_longer_than_commtimeout_contended",
+              "stalled_in_getInstance", "oneway_served", "oneway_first_call", "oneway_first_then_call_slow_session",
+              "session_dropped_after_oneway_then_disconnect"]
     RULE = ("plan = (server type, serializer, 1-3 registered classes out of {single,session,percall} x {truthy, falsy via __len__, "
             "falsy via __bool__, __eq__ always True, __eq__ always False} x {no creator, creator script of ok/raise/None/foreign "
-            "object per invocation}, 2-4 clients x 1-3 connections (released or reset by the client; same or new proxy) x 0-4 calls (a call may address another registered class over "
-            "the same connection), optional barrier releasing all first calls together, pre-emption probabilities); distinct = "
+            "object per invocation}, 2-4 clients x 1-3 connections (released or reset by the client; same or new proxy) x 0-4 calls, normal or one-way (a call may address another registered class over "
+            "the same connection), construction time 0/0.05/0.9 virtual s per class, COMMTIMEOUT 0 or 0.3 s, optional barrier releasing all "
+            "first calls together, pre-emption and stall probabilities); distinct = "
             "distinct interleaving digest; non-trivial = at least two connections were served successfully")
     ASSUMPTIONS = ["a connection has ended for the daemon once the client released it and the server threads have run until they block "
-                   "(virtual clock advanced); only then must a session instance be gone",
+                   "(virtual clock advanced), the one-way calls sent on it have been executed (bounded wait) and no thread is serving an "
+                   "injected stall; only then must a session instance be gone",
+                   "a finished one-way call thread object is garbage in a real process: what the scheduler's thread table still holds of it "
+                   "(bound method, call context) is dropped before instance liveness is judged",
+                   "with COMMTIMEOUT the clients never idle longer than 0.01 s on an open connection and their proxies have no timeout",
+                   "an executed one-way call counts like an answered call; a one-way call that was never executed (creator failed, request "
+                   "lost with a reset connection) is not judged",
                    "an instance held only by a garbage cycle counts as dropped (gc.collect() before a leak is reported)",
                    "a request needs at most one new instance, so at most one creator invocation may happen while serving one request",
                    "a creator that returns an object that is not an instance of the class has failed: the call must not be served by that object",
                    "methods of the workload classes never raise, so every error reply stems from instance creation"]
-    QUICK_RUNS = 8000
+    QUICK_RUNS = 6000
     CHUNK = 100
     SHRINK_LISTS = (["clients", "objs"] + ["clients.%d.sessions" % i for i in range(4)] +
                     ["clients.%d.sessions.%d.calls" % (i, j) for i in range(4) for j in range(3)] +
@@ -210,6 +249,7 @@ class InstWorld(World):
             servertype = "thread" if rng.random() < 0.85 else "multiplex"
         else:
             servertype = rng.choice(["thread", "multiplex"])
+        commtimeout = rng.choice([0, 0, 0.3])
         nobj = rng.choice([1, 1, 2, 2, 3])
         objs = []
         used = set()
@@ -232,7 +272,7 @@ class InstWorld(World):
                     script = []
                 else:
                     script = [rng.choice(["ok", "ok", "raise", "raise", "none", "impostor"]) for _ in range(rng.randint(1, 4))]
-            objs.append({"mode": mode, "shape": shape, "creator": script})
+            objs.append({"mode": mode, "shape": shape, "creator": script, "work": rng.choice([0, 0, 0.05, 0.9])})
         nobj = len(objs)
         clients = []
         for ci in range(rng.randint(2, 4)):
@@ -242,17 +282,19 @@ class InstWorld(World):
                 calls = []
                 for j in range(rng.randint(1, 4) if si == 0 else rng.choice([0, 1, 2, 3, 4])):
                     o = rng.randrange(nobj) if (nobj > 1 and rng.random() < 0.15 and not (race and si == 0 and j == 0)) else so
-                    calls.append({"o": o, "pause": rng.choice([0, 0, 0, 0.01])})
+                    k = "note" if rng.random() < (0.3 if j == 0 else 0.2) else "who"
+                    calls.append({"o": o, "k": k, "pause": rng.choice([0, 0, 0, 0.01])})
                 sessions.append({"o": so, "reuse": rng.random() < 0.5, "abort": rng.random() < 0.2, "calls": calls})
             clients.append({"start": rng.choice([0, 0, 0.01, 0.3]), "sessions": sessions})
-        threaded = servertype == "thread"
-        return {"servertype": servertype, "serializer": rng.choice(SERIALIZERS), "race": race, "objs": objs, "clients": clients,
-                "p_line": rng.choice([0.1, 0.25, 0.5]) if threaded else 0.0,
+        return {"servertype": servertype, "serializer": rng.choice(SERIALIZERS), "race": race, "commtimeout": commtimeout,
+                "objs": objs, "clients": clients,
+                "p_line": rng.choice([0.1, 0.25, 0.5]),
                 "p_block": rng.choice([0.3, 0.6, 1.0]) if race else rng.choice([0.0, 0.3, 0.6, 1.0]),
+                "p_stall": rng.choice([0.0, 0.0, 0.02]),
                 "net": {"shuffle_select": rng.random() < 0.5}}
 
     def line_codes(self, plan):
-        return _codes() if plan["servertype"] == "thread" else ()
+        return _codes()
 
     def simplify(self, plan):
         if plan.get("race"):
@@ -262,6 +304,10 @@ class InstWorld(World):
         if plan["servertype"] != "multiplex":
             p = dict(plan)
             p["servertype"] = "multiplex"
+            yield p
+        if plan.get("commtimeout"):
+            p = dict(plan)
+            p["commtimeout"] = 0
             yield p
         if plan["serializer"] != "serpent":
             p = dict(plan)
@@ -277,14 +323,24 @@ class InstWorld(World):
                 p["objs"] = [dict(x) for x in plan["objs"]]
                 p["objs"][k]["creator"] = None
                 yield p
+            if o.get("work"):
+                p = dict(plan)
+                p["objs"] = [dict(x) for x in plan["objs"]]
+                p["objs"][k]["work"] = 0
+                yield p
         for i, c in enumerate(plan["clients"]):
             dirty = c.get("start") or any(s.get("reuse") or s.get("abort") or any(x.get("pause") for x in s["calls"]) for s in c["sessions"])
             if dirty:
                 p = dict(plan)
                 p["clients"] = [dict(x) for x in plan["clients"]]
                 p["clients"][i] = {"start": 0, "sessions": [{"o": s["o"], "reuse": False,
-                                                             "calls": [{"o": x["o"], "pause": 0} for x in s["calls"]]}
+                                                             "calls": [{"o": x["o"], "k": x.get("k", "who"), "pause": 0} for x in s["calls"]]}
                                                             for s in c["sessions"]]}
+                yield p
+            if any(x.get("k") == "note" for s in c["sessions"] for x in s["calls"]):
+                p = dict(plan)
+                p["clients"] = [dict(x) for x in plan["clients"]]
+                p["clients"][i] = dict(c, sessions=[dict(s, calls=[dict(x, k="who") for x in s["calls"]]) for s in c["sessions"]])
                 yield p
 
     # ------------------------------------------------------------------ one run
@@ -300,31 +356,43 @@ class InstWorld(World):
                     daemon.unregister(cls)      # the classes are module level: do not keep this run's daemon alive through them
                 except Exception:  # noqa
                     pass
-                # the run is over and judged: keep SocketServer_Threadpool.__del__ -> Pool.close() (which would do a REAL
-                # time.sleep(0.1) once the seams are gone) from slowing the batch down
                 pool = getattr(getattr(daemon, "transportServer", None), "pool", None)
                 if pool is not None:
-                    pool.closed = True
+                    pool.closed = True          # nothing left for SocketServer_Threadpool.__del__ -> Pool.close() to wait for
             run.sched = None
 
+    @staticmethod
+    def _forget_finished_oneway_threads(sched):
+        """A finished _OnewayCallThread object is garbage in a real process; here the scheduler's thread table keeps it, and with
+        it the bound method (-> the instance) and the call context (-> the connection). Drop what the dead thread object holds."""
+        for t in sched.threads:
+            th = t.real
+            if t.state == "done" and isinstance(th, SV._OnewayCallThread) and th.pyro_method is not None:
+                th.pyro_method = th.pyro_vargs = th.pyro_kwars = th.parent_context = None
+
+    @staticmethod
+    def _oneway_threads_running(sched):
+        return any(t.state != "done" and isinstance(t.real, SV._OnewayCallThread) for t in sched.threads)
+
     def _scenario(self, ctx, run, registered):
-        plan, sched = ctx.plan, ctx.sched
+        plan, sched, net = ctx.plan, ctx.sched, ctx.net
         config.SERIALIZER = plan["serializer"]
         ctx.probe(plan["servertype"])
+        commtimeout = float(plan.get("commtimeout") or 0.0)
         # ---- the classes of this run (duplicates - possible only in hand-edited / simplified plans - share one registration)
-        objs = []       # effective objects: {"cls","key","mode","shape","script","uri","oid"}
+        objs = []       # effective objects: {"cls","key","mode","shape","script","work","uri","oid"}
         index = []      # plan object index -> effective object index
         for o in plan["objs"]:
             cls = CLASSES[(o["mode"], o["shape"], o.get("creator") is not None)]
             hit = next((k for k, e in enumerate(objs) if e["cls"] is cls), None)
             if hit is None:
                 hit = len(objs)
-                objs.append({"cls": cls, "key": cls._key, "mode": o["mode"], "shape": o["shape"],
+                objs.append({"cls": cls, "key": cls._key, "mode": o["mode"], "shape": o["shape"], "work": float(o.get("work") or 0.0),
                              "script": list(o["creator"]) if o.get("creator") is not None else None})
             index.append(hit)
         if not objs or not any(c["sessions"] for c in plan["clients"]):
             return
-        srv = Server(ctx, plan["servertype"], pool=(1, 8))
+        srv = Server(ctx, plan["servertype"], pool=(1, 8), commtimeout=commtimeout)
         daemon = srv.daemon
         daemon.create_single_instance_lock = _ProbeLock(sched)     # same semantics, counts contention (probe only)
         for k, e in enumerate(objs):
@@ -333,7 +401,12 @@ class InstWorld(World):
             registered.append((daemon, e["cls"]))
             if e["script"] is not None:
                 run.scripts[e["key"]] = e["script"]
+            if e["work"]:
+                run.work[e["key"]] = e["work"]
         by_key = {e["key"]: e for e in objs}
+        maxwork = max(e["work"] for e in objs)
+        if commtimeout:
+            ctx.probe("commtimeout")
 
         def eff(i):
             return objs[index[i % len(index)]]
@@ -350,6 +423,22 @@ class InstWorld(World):
             if not sched.block(lambda: st["go"], 600.0, "barrier"):
                 problems.append("barrier never opened")
 
+        def wait_server_idle(conn, pending_notes):
+            """the client has ended the connection: wait until the server has closed its end too (a busy multiplex thread, a slow
+            constructor or a stall can delay that), the one-way calls sent on this connection have been executed, and the server
+            threads have run until they block (the virtual clock moved) with nobody serving an injected stall."""
+            ssock = net.conns[conn][1]
+            sched.block(lambda: ssock.closed, 120.0, "server-close")
+            if pending_notes:
+                done = lambda: all(any(x["tok"] == tk for x in run.execs) for tk in pending_notes)  # noqa: E731
+                sched.block(done, 2.0 + 2.5 * maxwork * len(pending_notes), "oneway-work")
+            sched.sleep(0.5)
+            for _ in range(40):
+                if not sched.any_stalled():
+                    break
+                sched.sleep(1.0)
+            self._forget_finished_oneway_threads(sched)
+
         def client(ci, cspec):
             if not race and cspec.get("start"):
                 sched.sleep(cspec["start"])
@@ -361,6 +450,7 @@ class InstWorld(World):
                     p = prev[0]                     # the same proxy connects again
                 else:
                     p = CL.Proxy(so["uri"])
+                p._pyroTimeout = None               # (a proxy's timeout defaults to COMMTIMEOUT: constructors may take longer than that)
                 try:
                     p._pyroBind()
                 except Exception as x:  # noqa - cannot happen with 8 workers and <= 4 clients
@@ -370,7 +460,7 @@ class InstWorld(World):
                         arrive()
                     continue
                 conn = p._pyroConnection.sock.conn
-                crec = {"conn": conn, "ci": ci, "si": si, "reconnect": si > 0, "ended": False, "leak": None}
+                crec = {"conn": conn, "ci": ci, "si": si, "reconnect": si > 0, "ended": False, "leak": None, "notes": []}
                 conns.append(crec)
                 if at_barrier:
                     at_barrier = False
@@ -378,21 +468,31 @@ class InstWorld(World):
                 for j, c in enumerate(sess["calls"]):
                     o = eff(c["o"])
                     tok = "c%ds%dj%d" % (ci, si, j)
+                    kind = c.get("k", "who")
                     rec = {"ci": ci, "si": si, "j": j, "conn": conn, "key": o["key"], "tok": tok, "foreign": o is not so,
-                           "inv": sched.stamp()}
+                           "kind": kind, "inv": sched.stamp()}
                     try:
-                        if o is so:
-                            r = p.who(tok)
+                        if kind == "note":
+                            if o is so:
+                                p.note(tok)
+                            else:
+                                p._pyroInvoke("note", [tok], {}, flags=PR.FLAGS_ONEWAY, objectId=o["oid"])
+                            rec["out"] = ("sent",)
+                            crec["notes"].append(tok)
                         else:
-                            r = p._pyroInvoke("who", [tok], {}, objectId=o["oid"])    # another object over the same connection
-                        rec["out"] = ("ok", r)
+                            if o is so:
+                                r = p.who(tok)
+                            else:
+                                r = p._pyroInvoke("who", [tok], {}, objectId=o["oid"])    # another object over the same connection
+                            rec["out"] = ("ok", r)
                     except E.CommunicationError as x:
                         rec["out"] = ("comm", type(x).__name__, str(x)[:160])
                     except Exception as x:  # noqa - error replies of the daemon
                         rec["out"] = ("err", type(x).__name__, str(x)[:160])
                     rec["ret"] = sched.stamp()
+                    rec["seq"] = p._pyroSeq
                     calls.append(rec)
-                    sched.ev("call", tok, rec["out"][0], rec["out"][1] if rec["out"][0] != "ok" else repr(rec["out"][1]))
+                    sched.ev("call", tok, rec["out"][0], rec["out"][1] if rec["out"][0] in ("comm", "err") else repr(rec["out"][1:]))
                     if rec["out"][0] == "comm":
                         break
                     if c.get("pause"):
@@ -404,8 +504,7 @@ class InstWorld(World):
                     p._pyroRelease()
                 except Exception as x:  # noqa
                     problems.append("release failed: %s" % type(x).__name__)
-                # the connection has ended; let the server notice (every server thread runs until it blocks before the clock moves)
-                sched.sleep(0.5)
+                wait_server_idle(conn, crec["notes"])
                 mine = [m for m in run.made if m["conn"] == conn and m["mode"] == "session"]
                 left = _alive(mine)
                 if left:
@@ -441,7 +540,12 @@ class InstWorld(World):
                 ctx.disturbed = "a client hung"
             return
         sched.sleep(1.0)
-        sched.settle(5.0)
+        for _ in range(30):
+            sched.quiesce()
+            if not self._oneway_threads_running(sched):
+                break
+            sched.sleep(1.0)
+        self._forget_finished_oneway_threads(sched)
         if not srv.loop_alive():
             ctx.disturbed = "daemon loop died: %r" % (srv.loop_death(),)
             return
@@ -450,8 +554,12 @@ class InstWorld(World):
             return
         if run.lock_contended:
             ctx.probe("concurrent_first_calls_overlapped")
+            if commtimeout and plan["servertype"] == "thread" and any(e["mode"] == "single" and e["work"] > commtimeout for e in objs):
+                ctx.probe("single_creation_longer_than_commtimeout_contended")
         if sched.preempts:
             ctx.probe("preempted_in_getInstance")
+        if sched.stalls:
+            ctx.probe("stalled_in_getInstance")
         self._judge(ctx, plan, run, by_key, calls, conns)
 
     # ------------------------------------------------------------------ oracle
@@ -459,7 +567,8 @@ class InstWorld(World):
         made_by_serial = {m["serial"]: m for m in run.made}
 
         def in_call(log, rec):
-            return [x for x in log if x["conn"] == rec["conn"] and rec["inv"] < x["stamp"] < rec["ret"]]
+            """log entries written while serving this request (same connection, same message sequence number)"""
+            return [x for x in log if x["conn"] == rec["conn"] and x["seq"] == rec["seq"]]
 
         def skey(e):
             return "falsy" if e["shape"] in FALSY else "other"
@@ -467,12 +576,15 @@ class InstWorld(World):
         # ---- every call on its own
         bad_keys = set()            # classes whose successful replies cannot be used for the mode rules
         failed_before = set()       # class keys on which a creator failure already happened
+        first_of_conn = {}
+        for rec in calls:
+            first_of_conn.setdefault(rec["conn"], rec)
         for rec in calls:
             e = by_key[rec["key"]]
             out = rec["out"]
             acts = [c for c in in_call(run.creator_log, rec) if c["key"] == rec["key"]]
             failing = [c["action"] for c in acts if c["action"] != "ok"]
-            what = "call %s on %s (connection %d)" % (rec["tok"], rec["key"], rec["conn"])
+            what = "%s %s on %s (connection %d)" % ("one-way call" if rec["kind"] == "note" else "call", rec["tok"], rec["key"], rec["conn"])
             if acts:
                 ctx.probe("creator_used")
             if "raise" in failing:
@@ -482,21 +594,32 @@ class InstWorld(World):
             if len(acts) > 1:
                 ctx.violate("creator-call-count", "per-request", "%s: the instance creator was called %d times while serving this one request (%s)"
                             % (what, len(acts), [c["action"] for c in acts]))
+            served = None           # serial of the instance that executed the call
             if out[0] == "ok":
                 r = out[1]
                 if not (isinstance(r, (list, tuple)) and len(r) == 2 and r[1] == rec["tok"] and isinstance(r[0], int)):
                     ctx.disturbed = "%s returned %r" % (what, r)       # a foreign reply: not this property
                     return
-                m = made_by_serial.get(r[0])
+                served = r[0]
+            elif out[0] == "sent":
+                ex = [x for x in run.execs if x["tok"] == rec["tok"]]
+                if len(ex) > 1:
+                    ctx.disturbed = "%s was executed %d times" % (what, len(ex))      # not this property
+                    return
+                if ex:
+                    served = ex[0]["serial"]
+                    rec["exec_stamp"] = ex[0]["stamp"]
+            if served is not None:
+                m = made_by_serial.get(served)
                 if m is None:
-                    raise S.HarnessError("%s was served by unknown instance %r" % (what, r[0]))
-                rec["serial"] = r[0]
+                    raise S.HarnessError("%s was served by unknown instance %r" % (what, served))
+                rec["serial"] = served
                 if m["key"] == "Impostor":
                     ctx.violate("wrong-type-accepted", "", "%s was served by the object of a foreign class that the instance creator returned" % what)
                     bad_keys.add(rec["key"])
                     continue
                 if m["key"] != rec["key"]:
-                    ctx.violate("served-by-foreign-class", "", "%s was served by instance %d of class %s" % (what, r[0], m["key"]))
+                    ctx.violate("served-by-foreign-class", "", "%s was served by instance %d of class %s" % (what, served, m["key"]))
                     bad_keys.add(rec["key"])
                     continue
                 if failing:
@@ -512,6 +635,15 @@ class InstWorld(World):
                 ctx.probe(e["mode"])
                 if rec["foreign"]:
                     ctx.probe("multi_class_connection")
+                if rec["kind"] == "note":
+                    ctx.probe("oneway_served")
+                    if first_of_conn[rec["conn"]] is rec:
+                        ctx.probe("oneway_first_call")
+                        nxt = next((r for r in calls if r["conn"] == rec["conn"] and r is not rec), None)
+                        if nxt is not None and nxt["kind"] == "who" and nxt["key"] == rec["key"] and e["work"] > 0 and e["mode"] == "session":
+                            ctx.probe("oneway_first_then_call_slow_session")
+            elif out[0] == "sent":
+                pass        # not executed (creator failed / request lost with a reset connection): nothing to judge here
             elif out[0] == "err":
                 if not failing:
                     if rec["key"] in failed_before:
@@ -534,23 +666,25 @@ class InstWorld(World):
             if e is not None and e["script"] is not None and not m["in_creator"]:
                 ctx.violate("creator-call-count", "bypassed", "instance %d of %s was constructed without calling its instance creator" % (m["serial"], m["key"]))
 
-        # ---- the instance mode rules, per class
+        # ---- the instance mode rules, per class ("served" = answered normal calls and executed one-way calls)
         ok_conns = set()
         for key, e in by_key.items():
-            oks = [r for r in calls if r["key"] == key and r["out"][0] == "ok" and "serial" in r]
+            oks = [r for r in calls if r["key"] == key and "serial" in r]
             for r in oks:
                 ok_conns.add(r["conn"])
             if key in bad_keys:
                 continue
             made = [m for m in run.made if m["key"] == key]
+            if e["work"] and made:
+                ctx.probe("slow_constructor")
             if e["mode"] == "single":
                 serials = sorted({r["serial"] for r in oks})
                 if e["shape"] in FALSY:
                     k = "falsy"
                 else:
-                    # "race": two of the instances were constructed while serving calls that overlapped in time
-                    spans = [(r["inv"], r["ret"]) for m in made for r in calls
-                             if r["conn"] == m["conn"] and r["inv"] < m["stamp"] < r["ret"]]
+                    # "race": two of the instances were constructed while serving requests that overlapped in time
+                    spans = [(r["inv"], max(r["ret"], m["end"] or m["stamp"])) for m in made for r in calls
+                             if r["conn"] == m["conn"] and r["seq"] == m["seq"]]
                     k = "race" if any(a[0] < b[1] and b[0] < a[1] for i, a in enumerate(spans) for b in spans[i + 1:]) else "sequential"
                 if len(serials) > 1:
                     ctx.violate("single-multiple-instances", k, "calls on the 'single' class %s were served by instances %s (%d constructed, %d calls on %d connections)"
@@ -581,18 +715,35 @@ class InstWorld(World):
                     if seen_on is not None and seen_on != m["conn"]:
                         ctx.violate("session-instance-shared", "", "instance %d of %s was created for connection %s but served connection %d"
                                     % (m["serial"], key, m["conn"], seen_on))
+                made_per_conn = {}
+                for m in made:
+                    made_per_conn.setdefault(m["conn"], []).append(m["serial"])
+                if not recreated:
+                    for conn in sorted(made_per_conn, key=str):
+                        if len(made_per_conn[conn]) > 1:
+                            ctx.violate("session-construction-count", skey(e), "%d instances (%s) of the 'session' class %s were constructed for connection %s"
+                                        % (len(made_per_conn[conn]), made_per_conn[conn], key, conn))
+                            recreated = True
                 if not recreated and len(made) != len(per_conn):
-                    ctx.violate("session-construction-count", skey(e), "%d instances of the 'session' class %s were constructed for %d connections that made a successful call"
-                                % (len(made), key, len(per_conn)))
+                    # (a construction whose one-way request was never executed is possible only with a lost / failed request)
+                    unserved = {m["conn"] for m in made} - set(per_conn)
+                    lost = {r["conn"] for r in calls if r["key"] == key and r["out"][0] == "sent" and "serial" not in r}
+                    if len(made) < len(per_conn) or not unserved <= lost:
+                        ctx.violate("session-construction-count", skey(e), "%d instances of the 'session' class %s were constructed for %d connections that were served"
+                                    % (len(made), key, len(per_conn)))
             else:
                 serials = [r["serial"] for r in oks]
+                lost = sum(1 for r in calls if r["key"] == key and r["out"][0] == "sent" and "serial" not in r)
                 if len(set(serials)) != len(serials):
                     ctx.violate("percall-instance-reused", "", "calls on the 'percall' class %s were served by instances %s" % (key, serials))
-                elif len(made) != len(oks):
-                    ctx.violate("percall-construction-count", "", "%d instances of the 'percall' class %s were constructed for %d successful calls"
+                elif not (len(oks) <= len(made) <= len(oks) + lost):
+                    ctx.violate("percall-construction-count", "", "%d instances of the 'percall' class %s were constructed for %d served calls"
                                 % (len(made), key, len(oks)))
 
         # ---- session instances are dropped when their connection ends
+        last_of_conn = {}
+        for rec in calls:
+            last_of_conn[rec["conn"]] = rec
         for c in conns:
             if not c["ended"]:
                 continue
@@ -605,6 +756,9 @@ class InstWorld(World):
                     ctx.probe("session_dropped_while_others_connected")
                 if c.get("aborted"):
                     ctx.probe("session_dropped_after_reset")
+                lr = last_of_conn.get(c["conn"])
+                if lr is not None and lr["kind"] == "note" and "serial" in lr and by_key[lr["key"]]["mode"] == "session":
+                    ctx.probe("session_dropped_after_oneway_then_disconnect")
             if c["reconnect"] and c["conn"] in ok_conns:
                 ctx.probe("reconnect")
         sess = [m for m in run.made if m["mode"] == "session"]
@@ -618,7 +772,7 @@ class InstWorld(World):
             ctx.violate("session-instance-leaked", "", "session instance(s) %s still exist after all connections ended and the server went idle" % left)
         ctx.nontrivial = len(ok_conns) >= 2
         ctx.info = {"calls": len(calls), "connections": len(conns), "constructed": len(run.made), "creator_calls": len(run.creator_log),
-                    "lock_contended": run.lock_contended}
+                    "oneway_executed": len(run.execs), "lock_contended": run.lock_contended}
 
 
 WORLD = InstWorld()
